@@ -77,7 +77,7 @@ func setup(f *gen.Func, path string) (*world.World, target) {
 	switch path {
 	case "wire-reply", "wire-notify":
 		le := w.AddLocalEntity([]uint{1}, model.EntityTypeTypeCEM, time.Second)
-		lf := world.AddLocalFeature(le, world.FeatSpec{Type: ft, Role: model.RoleTypeClient})
+		lf := w.AddLocalFeature(le, world.FeatSpec{Type: ft, Role: model.RoleTypeClient})
 		p := w.AddPeer("ski1", "d:_r:peer1", []world.EntSpec{{Addr: []uint{1}, Type: model.EntityTypeTypeEVSE, Feats: []world.FeatSpec{
 			{ID: 1, Type: ft, Role: model.RoleTypeServer, Funcs: []world.FuncSpec{{Fn: f.Fn, Read: true}}},
 		}}})
@@ -108,7 +108,7 @@ func setup(f *gen.Func, path string) (*world.World, target) {
 		}
 	default: // local API
 		le := w.AddLocalEntity([]uint{1}, model.EntityTypeTypeCEM, time.Second)
-		lf := world.AddLocalFeature(le, world.FeatSpec{Type: ft, Role: model.RoleTypeServer, Funcs: []world.FuncSpec{{Fn: f.Fn, Read: true, Write: true}}})
+		lf := w.AddLocalFeature(le, world.FeatSpec{Type: ft, Role: model.RoleTypeServer, Funcs: []world.FuncSpec{{Fn: f.Fn, Read: true, Write: true}}})
 		return w, target{
 			name: path,
 			apply: func(u refmodel.Update) bool {
